@@ -12,3 +12,4 @@ from . import spec  # noqa: E402,F401
 from . import c_gkdi  # noqa: E402,F401
 from . import c_client  # noqa: E402,F401
 from . import c_dns  # noqa: E402,F401
+from . import c_codecs  # noqa: E402,F401
